@@ -87,6 +87,33 @@ def f19_witness(work):
     return present, det
 
 
+F19_SCRIPT_ID = 9000001
+F19_SCRIPT = dict(ev="script", id=F19_SCRIPT_ID, proto="tcp", conns=[dict(
+    entry="tcp", refuse=False, rhold_c=False, rhold_t=True, rbuf_c=65536, rbuf_t=65536,
+    # the target never reads; once the client's writer stands still (the tunnel is full: the server's bridge is blocked
+    # on the target socket, 512 frames are queued behind it, the client's bridge is out of credit) it half-closes, then
+    # closes.  A direct connection fails the client's blocked write with a reset.
+    c=[dict(op="wbig", piece=16777216, max=1610612736, chunk=65536), dict(op="close")],
+    t=[dict(op="sleep", ms=1500), dict(op="hc"), dict(op="sleep", ms=500), dict(op="close")])])
+
+
+def f19_tunnel(bin_path, work, seed):
+    """The tunnel-level symptom of F19, deterministically: one connection of the script above on the real client + server.
+    Returns (bad, item, script) with bad = [(sig, detail)] ([] if TLC accepts the connection)."""
+    sp = os.path.join(work, "f19_script.ndjson")
+    with open(sp, "w") as f:
+        f.write(json.dumps(F19_SCRIPT, separators=(",", ":")) + "\n")
+    raw = os.path.join(work, "f19_raw.ndjson")
+    # its own, shorter deadline (a blocked write is reported after 8 deadlines): nothing else runs meanwhile
+    run_tunnel(bin_path, sp, raw, seed, 2000, timeout=600)
+    grouped = os.path.join(work, "f19_grouped.ndjson")
+    items, script_of = group_log(raw, grouped)
+    total, bad, _notes, _st = validate(grouped)
+    if total != 1 or len(items) != 1:
+        raise ToolError("the F19 scenario did not produce exactly one connection")
+    return [(sig, det) for _ln, sig, det in bad], items[0], script_of[F19_SCRIPT_ID]
+
+
 # --------------------------------------------------------------------------------------
 # 1. model checking and script generation
 # --------------------------------------------------------------------------------------
@@ -672,14 +699,21 @@ def check(prop, tier, seed, replay):
             log(f"[F19] mechanism of {F19_SIG} on the real penguin-mux (findings/F19/schedule.json): "
                 + ("present" if present else "NOT present") + " " + json.dumps({k: v for k, v in f19.items() if k != "trace"}))
             if present:
-                # reported through the same path as a tunnel-level observation of the signature
-                bad = list(bad)
                 f19["lines"] = open(f19["trace"]).readlines()
+            # ... and its symptom on the real tunnel
+            f19_bad, f19_item, f19_sc = f19_tunnel(bin_path, work, seed)
+            f19["tunnel_scenario"] = [sig for sig, _ in f19_bad] or ["accepted"]
+            log(f"[F19] directed tunnel scenario (the target half-closes and closes without reading while the client's "
+                f"writer is blocked): {f19['tunnel_scenario']}")
         rejected = collections.defaultdict(list)
         for ln, sig, det in bad:
             if sig == "other:malformed_script":
                 raise ToolError(f"malformed script / log at line {ln}: {json.dumps(det)}")
             rejected[sig].append((items[ln - 1], det))
+        if f19 is not None:
+            script_of[F19_SCRIPT_ID] = f19_sc
+            for sig, det in f19_bad:
+                rejected[sig].append((f19_item, det))
         violations, known_met, rej_summary = [], [], {}
         for sig in sorted(rejected):
             its = sorted(rejected[sig], key=lambda x: (sum(len(v) for v in x[0]["eps"].values()), x[0]["s"], x[0]["c"]))
